@@ -10,7 +10,7 @@ type Bytes struct {
 
 func VecBytes(v []*Term) *Bytes {
 	b := &Bytes{Len: CI(int64(len(v))), Vec: v}
-	b.At = func(i *Term) *Term {
+	b.At = memoAt(func(i *Term) *Term {
 		if i.IsConst() {
 			if int64(i.Val) < 0 || int64(i.Val) >= int64(len(v)) {
 				return C(8, 0)
@@ -37,10 +37,24 @@ func VecBytes(v []*Term) *Bytes {
 			r = Ite(Eq(i, CI(int64(j))), v[j], r)
 		}
 		return r
-	}
+	})
 	return b
 }
 func EmptyBytes() *Bytes { return VecBytes(nil) }
+
+// memoAt caches At results per index term: merged and concatenated sequences share long prefixes, and
+// without the cache a read walks both arms of every merge (exponential in the number of merges).
+func memoAt(f func(i *Term) *Term) func(i *Term) *Term {
+	cache := map[*Term]*Term{}
+	return func(i *Term) *Term {
+		if r, ok := cache[i]; ok {
+			return r
+		}
+		r := f(i)
+		cache[i] = r
+		return r
+	}
+}
 func ConstBytes(s string) *Bytes {
 	v := make([]*Term, len(s))
 	for i := 0; i < len(s); i++ {
@@ -84,7 +98,7 @@ func Concat2(a, b *Bytes) *Bytes {
 		return a
 	}
 	r := &Bytes{Len: Add(a.Len, b.Len)}
-	r.At = func(i *Term) *Term {
+	r.At = memoAt(func(i *Term) *Term {
 		c := Lt(i, a.Len, true)
 		if c == True {
 			return a.At(i)
@@ -93,7 +107,7 @@ func Concat2(a, b *Bytes) *Bytes {
 			return b.At(Sub(i, a.Len))
 		}
 		return Ite(c, a.At(i), b.At(Sub(i, a.Len)))
-	}
+	})
 	return r.Norm()
 }
 func SliceBytes(a *Bytes, lo, hi *Term) *Bytes {
@@ -107,12 +121,12 @@ func SliceBytes(a *Bytes, lo, hi *Term) *Bytes {
 		return a
 	}
 	r := &Bytes{Len: Sub(hi, lo)}
-	r.At = func(i *Term) *Term { return a.At(Add(i, lo)) }
+	r.At = memoAt(func(i *Term) *Term { return a.At(Add(i, lo)) })
 	return r.Norm()
 }
 func RepeatByte(p *Term, n *Term) *Bytes {
 	r := &Bytes{Len: n}
-	r.At = func(i *Term) *Term { return p }
+	r.At = memoAt(func(i *Term) *Term { return p })
 	return r.Norm()
 }
 
@@ -126,13 +140,13 @@ func UpdateBytes(a *Bytes, pos *Term, vals []*Term) *Bytes {
 		return VecBytes(v)
 	}
 	r := &Bytes{Len: a.Len}
-	r.At = func(i *Term) *Term {
+	r.At = memoAt(func(i *Term) *Term {
 		res := a.At(i)
 		for k := len(vals) - 1; k >= 0; k-- {
 			res = Ite(Eq(i, Add(pos, CI(int64(k)))), vals[k], res)
 		}
 		return res
-	}
+	})
 	return r.Norm()
 }
 
@@ -157,6 +171,6 @@ func MergeBytes(c *Term, a, b *Bytes) *Bytes {
 		return VecBytes(v)
 	}
 	r := &Bytes{Len: Ite(c, a.Len, b.Len)}
-	r.At = func(i *Term) *Term { return Ite(c, a.At(i), b.At(i)) }
+	r.At = memoAt(func(i *Term) *Term { return Ite(c, a.At(i), b.At(i)) })
 	return r.Norm()
 }
